@@ -304,8 +304,13 @@ def options_value(w, body, operand):
             return x[:3] + (tuple((f, norm(v)) for f, v in x[3]),) + tuple(x[4:])
         return x
     t = w.sym.of_operand(body, operand)
-    if t and t[0] == "call" and t[1] in w.prog.fns:
-        t = inline_private_calls(w.sym, w.prog, t, public_ok=True)
+    # only argument-less constructor functions are looked through (a builder chain `new().integrity(x)` sets fields by
+    # assignment, which a return-value term does not show — it stays a call and is not taken for a constant)
+    for _ in range(3):
+        if t and t[0] == "call" and t[1] in w.prog.fns and not t[2] and not t[3]:
+            t = w.sym.of_place(w.prog.fns[t[1]].body, 0, ())
+        else:
+            break
     return norm(t)
 
 
